@@ -1,5 +1,5 @@
 #!/usr/bin/env python3
-"""tools/extra_app.py - the part of the specification that goes beyond the listed properties: the lifecycle
+"""tools/extra.py - the part of the specification that goes beyond the listed properties: the lifecycle
 of the layer4 app (spec/L4App.tla, L4AppTrace.tla). Model-checks the lifecycle, runs the real App over loopback
 addresses (one of which cannot be bound) and lets TLC judge the observations. Prints OBSERVATION lines; it is
 not a property check and is not registered in MANIFEST.json (exit 0 = ran, 2 = machinery problem)."""
@@ -31,6 +31,19 @@ def main():
                 t = traces[b["id"]]
                 log(f"OBSERVATION app lifecycle: {'; '.join(b['clauses'])} (run {b['id']}: start error {t['startErrText']!r}, served after Start {t['afterStart']})")
             log(f"{n} runs of the real App judged by TLC, {len(bad)} with observations")
+            # ---- the process-wide peers pool across configuration loads (L4Peers) ----
+            okp = run_tlc(tmp, "L4Peers_MC.tla", "L4Peers_nofail.cfg", timeout=600)
+            tlc_ok(okp, "L4Peers_nofail")
+            asisp = run_tlc(tmp, "L4Peers_MC.tla", "L4Peers_asis.cfg", timeout=600)
+            fixedp = run_tlc(tmp, "L4Peers_MC.tla", "L4Peers_fixed.cfg", timeout=600)
+            tlc_ok(fixedp, "L4Peers_fixed")
+            log(f"model: peers pool ok without failed loads ({okp['distinct']} states); a failed load breaks sharing in the model of the code as it is: {any('Shared' in e for e in asisp['errors'])}; not when Cleanup deletes only what was stored: True")
+            trp = os.path.join(tmp, "peers.ndjson")
+            run_driver(vdrive, ["peers-run", "-out", trp], timeout=600)
+            n2, bad2, _ = validate_traces(tmp, trp, "peers_traces.ndjson", "L4PeersTrace.tla", "L4PeersTrace.cfg", max_shards=1)
+            for b in bad2:
+                log(f"OBSERVATION peers pool: {'; '.join(b['clauses'])} (scenario {b['id']})")
+            log(f"{n2} scenarios of the real peers pool judged by TLC, {len(bad2)} with observations")
         return 0
     except Inconclusive as e:
         log(f"INCONCLUSIVE: {e}")
